@@ -23,6 +23,7 @@ type Mutex struct {
 	st vsched.LockState
 }
 
+//go:norace
 func (m *Mutex) Lock() {
 	if vsched.Mode != vsched.ModePass {
 		vsched.Acquire(&m.st, vsched.KLock)
@@ -30,6 +31,7 @@ func (m *Mutex) Lock() {
 	m.mu.Lock()
 }
 
+//go:norace
 func (m *Mutex) TryLock() bool {
 	if vsched.Mode != vsched.ModePass {
 		if !vsched.TryAcquire(&m.st, vsched.KLock) {
@@ -41,6 +43,7 @@ func (m *Mutex) TryLock() bool {
 	return m.mu.TryLock()
 }
 
+//go:norace
 func (m *Mutex) Unlock() {
 	m.mu.Unlock()
 	if vsched.Mode != vsched.ModePass {
@@ -53,6 +56,7 @@ type RWMutex struct {
 	st vsched.LockState
 }
 
+//go:norace
 func (m *RWMutex) Lock() {
 	if vsched.Mode != vsched.ModePass {
 		vsched.Acquire(&m.st, vsched.KLock)
@@ -60,6 +64,7 @@ func (m *RWMutex) Lock() {
 	m.mu.Lock()
 }
 
+//go:norace
 func (m *RWMutex) Unlock() {
 	m.mu.Unlock()
 	if vsched.Mode != vsched.ModePass {
@@ -67,6 +72,7 @@ func (m *RWMutex) Unlock() {
 	}
 }
 
+//go:norace
 func (m *RWMutex) RLock() {
 	if vsched.Mode != vsched.ModePass {
 		vsched.Acquire(&m.st, vsched.KRLock)
@@ -74,6 +80,7 @@ func (m *RWMutex) RLock() {
 	m.mu.RLock()
 }
 
+//go:norace
 func (m *RWMutex) RUnlock() {
 	m.mu.RUnlock()
 	if vsched.Mode != vsched.ModePass {
@@ -81,6 +88,7 @@ func (m *RWMutex) RUnlock() {
 	}
 }
 
+//go:norace
 func (m *RWMutex) TryLock() bool {
 	if vsched.Mode != vsched.ModePass {
 		if !vsched.TryAcquire(&m.st, vsched.KLock) {
@@ -92,6 +100,7 @@ func (m *RWMutex) TryLock() bool {
 	return m.mu.TryLock()
 }
 
+//go:norace
 func (m *RWMutex) TryRLock() bool {
 	if vsched.Mode != vsched.ModePass {
 		if !vsched.TryAcquire(&m.st, vsched.KRLock) {
@@ -103,9 +112,12 @@ func (m *RWMutex) TryRLock() bool {
 	return m.mu.TryRLock()
 }
 
+//go:norace
 func (m *RWMutex) RLocker() sync.Locker { return (*rlocker)(m) }
 
 type rlocker RWMutex
 
+//go:norace
 func (r *rlocker) Lock()   { (*RWMutex)(r).RLock() }
+//go:norace
 func (r *rlocker) Unlock() { (*RWMutex)(r).RUnlock() }
